@@ -72,14 +72,15 @@ Theorem C09_overlap_multi_output_aligned : forall P cs items,
 Proof. exact overlap_items_aligned. Qed.
 Print Assumptions C09_overlap_multi_output_aligned.
 
-(* Multi-output plugins whose outputs are all window-local and can be cut at the same times (same_cuts:
-   e.g. every output has one row per input row): cache_beyond settles in one pass, iter succeeds, and
-   EVERY output's chunk stream is contiguous over the run and carries that output's computation over
-   the whole run. *)
+(* Multi-output plugins whose outputs are all window-local and whose cut sets are nested (of any two
+   outputs one can be cut wherever the other can; e.g. every output has one row per input row, or a
+   per-row output next to a group former): cache_beyond settles within two of its max_trials passes,
+   iter succeeds, and EVERY output's chunk stream is contiguous over the run and carries that output's
+   computation over the whole run. *)
 Theorem C09_overlap_multi_output_equals_whole_run :
   forall wtuple wl wr ml mr outs orun otgt sw R a b dt run cs,
   0 <= wl -> 0 <= wr -> ml <= 2 * wl -> mr <= 2 * wr -> (1 < length outs)%nat ->
-  (forall o, In o outs -> window_local ml mr (oo_f o)) -> same_cuts (map oo_f outs) ->
+  (forall o, In o outs -> window_local ml mr (oo_f o)) -> nested_cuts (map oo_f outs) ->
   dsp R -> chunking_of R a b dt run cs ->
   exists items,
     ow_iter (mk_ow_params wtuple wl wr outs orun otgt sw) cs = Ok items /\
@@ -90,25 +91,26 @@ Theorem C09_overlap_multi_output_equals_whole_run :
 Proof. exact overlap_multi_correct. Qed.
 Print Assumptions C09_overlap_multi_output_equals_whole_run.
 
-Theorem C09_per_row_outputs_same_cuts : forall hs : list (row -> list row -> Z), same_cuts (map f_row hs).
-Proof. exact f_row_same_cuts. Qed.
-Print Assumptions C09_per_row_outputs_same_cuts.
+(* instances of nested cuts: all per-row outputs (same cuts), and a per-row output with the group former *)
+Theorem C09_per_row_outputs_nested_cuts : forall hs : list (row -> list row -> Z), nested_cuts (map f_row hs).
+Proof. exact (fun hs => same_cuts_nested _ (f_row_same_cuts hs)). Qed.
+Print Assumptions C09_per_row_outputs_nested_cuts.
 
-(* Not proved: outputs whose cut sets are only NESTED (e.g. neighbour count + group former, where every
-   cut of the group output is a cut of the count output).  cache_beyond then needs up to two passes.
-   These configurations are covered by the correspondence check only (dual_group cases). *)
-Definition nested_cuts (fs : list (list row -> list row)) : Prop :=
-  forall f1 f2, In f1 fs -> In f2 fs ->
-    (forall I x, dsp I -> straddled (f1 I) x -> straddled (f2 I) x) \/
-    (forall I x, dsp I -> straddled (f2 I) x -> straddled (f1 I) x).
-Definition C09_full_overlap_multi_output_nested_cuts : Prop :=
-  forall wtuple wl wr ml mr outs orun otgt sw R a b dt run cs,
-  0 <= wl -> 0 <= wr -> ml <= 2 * wl -> mr <= 2 * wr -> (1 < length outs)%nat ->
-  (forall o, In o outs -> window_local ml mr (oo_f o)) -> nested_cuts (map oo_f outs) ->
+Theorem C09_dual_count_group_chunking_independent :
+  forall kl kr G (group_first : bool) wtuple wl wr d1 k1 d2 k2 orun otgt sw R a b dt run cs,
+  0 <= kl -> 0 <= kr -> kl <= 2 * wl -> kr <= 2 * wr -> 0 <= G -> G <= 2 * wl -> G <= 2 * wr ->
   dsp R -> chunking_of R a b dt run cs ->
+  let oc := mk_ow_out (f_count kl kr) d1 k1 in
+  let og := mk_ow_out (f_group G) d2 k2 in
+  let outs := if group_first then [og; oc] else [oc; og] in
   exists items,
     ow_iter (mk_ow_params wtuple wl wr outs orun otgt sw) cs = Ok items /\
-    forall k o, nth_error outs k = Some o -> flat_map crows (out_stream k items) = oo_f o R.
+    forall k o, nth_error outs k = Some o ->
+      flat_map crows (out_stream k items) = oo_f o R /\
+      contiguous_from a (out_stream k items) /\ last_end a (out_stream k items) = b /\
+      Forall wf (out_stream k items).
+Proof. exact dual_count_group_chunking_independent. Qed.
+Print Assumptions C09_dual_count_group_chunking_independent.
 
 (* DESIGN section 7, T6: the final `yield self.cached_results` never yields None, and a run with no
    input chunk fails (ValueError "Cannot work with empty input buffer") before reaching it. *)
